@@ -45,6 +45,12 @@ fn infra(msg: String) {
     }
 }
 
+fn drain_infra_stderr() {
+    for m in std::mem::take(&mut *INFRA.lock().unwrap_or_else(|e| e.into_inner())) {
+        eprintln!("INFRA: {m}");
+    }
+}
+
 fn drain_infra(ck: &mut Check) {
     let msgs: Vec<String> = std::mem::take(&mut *INFRA.lock().unwrap_or_else(|e| e.into_inner()));
     for m in msgs {
@@ -585,6 +591,48 @@ fn main() {
         bench(n);
         return;
     }
+    if std::env::var("VH_C11_COUNT").is_ok() {
+        // development aid: sizes of the exhaustive program families
+        let k0 = [0u8];
+        let k01 = [0u8, 1];
+        let e: Vec<Vec<Op>> = vec![vec![]];
+        for (name, n) in [
+            ("memory 2x2 key0", programs(Sys::Memory, &cache_alphabet(&k0), &e, &[2, 2], 3).len()),
+            ("memory 2x2 key0+key1", programs(Sys::Memory, &cache_alphabet(&k01), &e, &[2, 2], 3).len()),
+            ("memory 2x3 key0", programs(Sys::Memory, &cache_alphabet(&k0), &e, &[3, 3], 3).len()),
+            ("memory 3x2 key0", programs(Sys::Memory, &cache_alphabet(&k0), &e, &[2, 2, 2], 2).len()),
+            ("container 2x2 key0+key1", programs(Sys::Container, &container_alphabet(&k01), &e, &[2, 2], 3).len()),
+        ] {
+            eprintln!("{name}: {n} programs per setup");
+        }
+        // … and a smoke run of the search on a few programs of the big families
+        let s: Vec<Vec<Op>> = vec![vec![Op::PutZero { k: 0 }]];
+        for (name, fam) in [
+            ("memory 2x3", programs(Sys::Memory, &cache_alphabet(&k0), &s, &[3, 3], 3)),
+            ("memory 3x2", programs(Sys::Memory, &cache_alphabet(&k0), &s, &[2, 2, 2], 2)),
+            ("disk 2x2", programs(Sys::Disk, &cache_alphabet(&k0), &s, &[2, 2], 3)),
+        ] {
+            let mut st = DfsStats::default();
+            let stop = AtomicBool::new(false);
+            let t0 = std::time::Instant::now();
+            for p in fam.iter().step_by(fam.len() / 12 + 1) {
+                dfs_program(p, &Known::default(), &[], &mut st, &stop);
+            }
+            eprintln!(
+                "{name}: {} programs, {} schedules (max {} per program), {} distinct failure keys, {:.1} s",
+                st.programs,
+                st.evaluations,
+                st.max_schedules_per_program,
+                st.failures.len(),
+                t0.elapsed().as_secs_f64()
+            );
+            for k in st.failures.keys() {
+                eprintln!("   {k}");
+            }
+        }
+        drain_infra_stderr();
+        return;
+    }
     let mut ck = Check::from_args("C11", "exploration");
     let tier = ck.tier;
     ck.extra(
@@ -613,16 +661,36 @@ fn main() {
                     std::process::exit(2);
                 }
             };
-            // judge without the known list: conclude_replay maps known keys itself
-            let v = check_case(&case, &Known::default(), &[]);
-            let infra_msgs: Vec<String> = std::mem::take(&mut *INFRA.lock().unwrap());
-            if !infra_msgs.is_empty() {
-                for m in infra_msgs {
-                    eprintln!("INFRA: {m}");
+            // judge without the known list (conclude_replay maps known keys itself); a run can
+            // fail in several categories: report the one the replay file was recorded for
+            let recorded: Option<String> = std::fs::read_to_string(&path)
+                .ok()
+                .and_then(|t| serde_json::from_str::<serde_json::Value>(&t).ok())
+                .and_then(|v| v.get("key").and_then(|k| k.as_str()).map(str::to_string));
+            let outcome = run_case(&case).and_then(|run| {
+                let an = analyze(&case, &run);
+                attribute(&case, &an, &Known::default(), &[])
+            });
+            match outcome {
+                Err(e) => {
+                    eprintln!("INFRA: {e}");
+                    sys::drop_executor();
+                    std::process::exit(2);
                 }
-                std::process::exit(2);
+                Ok(list) => {
+                    let mut fails: Vec<(String, String)> = list
+                        .into_iter()
+                        .filter_map(|a| match a {
+                            Attributed::Violation(k, m, _) => Some((k, m)),
+                            Attributed::Known(_) => None,
+                        })
+                        .collect();
+                    let pick = fails.iter().position(|(k, _)| Some(k) == recorded.as_ref()).unwrap_or(0);
+                    let fail = if fails.is_empty() { None } else { Some(fails.swap_remove(pick)) };
+                    sys::drop_executor();
+                    ck.conclude_replay(&path, fail);
+                }
             }
-            ck.conclude_replay(&path, v.fail.map(|f| (f.key, f.msg)));
         }
     }
 
@@ -700,5 +768,6 @@ fn main() {
     ck.run(Section::pbt("evict-memory", tier.pick(60_000, 3_000_000), evict_case, move |c: &Case| check_case(c, &kn, &kk)).shards(16));
     drain_infra(&mut ck);
 
+    sys::drop_executor();
     ck.finish();
 }
